@@ -1,6 +1,6 @@
 package snapstate_test
 
-// Finding (property C10, "a failed install, refresh or revert leaves the snap exactly as it was"), open. Run with:
+// Finding (property C10, "a failed install, refresh or revert leaves the snap exactly as it was"), fixed. Run with:
 //   /verif/findings/run.sh C10_revert_status_lost_on_failed_refresh_test.go overlord/snapstate TestFindingC10RevertStatusLostOnFailedRefresh
 // doLinkSnap saves the snap's revert-status table ("old-revert-status") only when the operation is a revert.
 // On a refresh it executes `delete(snapst.RevertStatus, cand.Snap.Revision.N)` without saving anything, and
